@@ -220,3 +220,71 @@ first_h!(hdr_tree_first_b, tree::B);
 first_h!(hdr_tree_first_a2, tree::A2);
 first_h!(hdr_tree_first_root, tree::ROOT);
 first_h!(hdr_tree_first_void, tree::VOID);
+
+/// Containment only, on deep stacks (C06b/C13): the element header is concrete except for
+/// its 1-byte size; hierarchy and id problems are tolerated (so only the containment and
+/// limit logic runs); the open masters' sizes are symbolic, their known/unknown pattern is
+/// enumerated. The element must be rejected as oversized iff it overruns ANY known-size
+/// ancestor, whatever lies between.
+fn contain<const DEPTH: usize, const UNKNOWN_MASK: u8>() {
+    let mut win = [0u8; WIN];
+    let sb: u8 = kani::any();
+    kani::assume(sb >= 0x80 && sb != 0xFF);
+    win[CUR] = tree::VOID as u8;
+    win[CUR + 1] = sb;
+    let elem = 2 + (sb & 0x7F) as usize; // header + declared size
+    let base = 1000usize;
+    let pos = base + CUR;
+    let ids = [tree::ROOT, tree::A, tree::B];
+    let unknown = [UNKNOWN_MASK & 1 != 0, UNKNOWN_MASK & 2 != 0, UNKNOWN_MASK & 4 != 0];
+    let sz: [usize; 3] = kani::any();
+    let mut stack = Vec::with_capacity(3);
+    let mut min_end = usize::MAX;
+    let mut i = 0;
+    while i < 3 {
+        if i < DEPTH {
+            let data_start = 900 + 10 * i;
+            if !unknown[i] {
+                kani::assume(sz[i] < 100_000);
+                let end = data_start + sz[i];
+                kani::assume(end > pos && end <= min_end); // not exhausted, nested
+                min_end = end;
+            }
+            stack.push(ProcessingTag { tag: TreeTag::end(ids[i]), size: if unknown[i] { EBMLSize::Unknown } else { EBMLSize::Known(sz[i]) }, tag_start: data_start - 2, data_start });
+        }
+        i += 1;
+    }
+    let src: &[u8] = &[];
+    let mut it: TagIterator<&[u8], TreeTag> = TagIterator::with_capacity(src, &[], 0);
+    apply_mask(&mut it, MASK_ID | MASK_HIER);
+    it.set_max_allowable_tag_size(None);
+    it.verif_set_buffer(Box::new(win), WIN, CUR, Some(base));
+    it.verif_set_stack(stack, true);
+    let overruns = min_end != usize::MAX && pos + elem > min_end;
+    kani::cover!(overruns, "overrunning element reached");
+    kani::cover!(!overruns, "contained element reached");
+    let r = it.verif_peek_valid_tag_header();
+    match &r {
+        Ok(_) => assert!(!overruns, "C06/C13b: element accepted although it overruns a known-size ancestor"),
+        Err(e) => assert!(overruns && matches!(kind_of(e), ErrKind::Oversized { position, tag_id, .. } if position == pos && tag_id == tree::VOID),
+            "C06/C13b: an element inside every known-size ancestor is not rejected; an overrunning one is reported as oversized child at its offset"),
+    }
+    core::mem::forget(r);
+    core::mem::forget(it);
+}
+macro_rules! contain_h {
+    ($name:ident, $d:literal, $m:literal) => {
+        #[kani::proof]
+        #[kani::unwind(10)]
+        #[kani::stub(<core::io::CustomOwner as core::ops::Drop>::drop, stubs::noop_custom_owner_drop)]
+        #[kani::stub(std::hash::RandomState::new, stubs::fixed_random_state)]
+        fn $name() {
+            contain::<$d, $m>()
+        }
+    };
+}
+contain_h!(hdr_contain_kk, 2, 0);
+contain_h!(hdr_contain_ku, 2, 2);
+contain_h!(hdr_contain_kkk, 3, 0);
+contain_h!(hdr_contain_kuk, 3, 2);
+contain_h!(hdr_contain_kku, 3, 4);
